@@ -49,7 +49,7 @@ let op_of = function
 let req_of (x : sexp) =
   match x with
   | Ls [At "req"; now; be; Ls (At "orc" :: tabs); Ls (At "hash" :: hs); Ls (At "bresp" :: bs);
-        Ls (At "hit" :: ts); Ls (At "ops" :: os)] ->
+        Ls (At "hit" :: ts); Ls (At "ops" :: os); Ls (At "err" :: es)] ->
       let tabs = List.map (function Ls l -> List.map (fun a -> action_of (atom a)) l | _ -> failwith "orc") tabs in
       let orc sc r = by_restarts (List.nth tabs (scope_index sc)) r in
       let hs = List.map (fun h -> n_of_int (num h)) hs in
@@ -58,8 +58,11 @@ let req_of (x : sexp) =
                                 | _ -> failwith "bresp") bs in
       let ts = List.map (function At "x" -> None | t -> Some (z_of_int (num t))) ts in
       let os = List.map (function Ls l -> List.map op_of l | _ -> failwith "ops") os in
+      let es = List.map (function Ls l -> List.map (function At "x" -> None | c -> Some (nat_of_int (num c))) l
+                                  | _ -> failwith "err") es in
       let q = { q_now = z_of_int (num now); q_hash = by_restarts hs; q_backend = (num be = 1);
-                q_bresp = by_restarts bs; q_hit_ttl = by_restarts ts; q_ops = by_restarts os } in
+                q_bresp = by_restarts bs; q_hit_ttl = by_restarts ts; q_ops = by_restarts os;
+                q_errcode = (fun sc r -> by_restarts (List.nth es (scope_index sc)) r) } in
       (orc, q)
   | _ -> failwith ("bad request " ^ sexp_to_string x)
 
@@ -67,10 +70,11 @@ let xst_name = function XNone -> "NONE" | XHit -> "HIT" | XMiss -> "MISS"
 
 let show_report (r : report) : string =
   let flows = String.concat "," (List.map scope_name (r_flows r)) in
-  Printf.sprintf "R flows=%s restarts=%d cached=%d xcache=%s xhits=%s error=%d obs=%s"
+  Printf.sprintf "R flows=%s restarts=%d cached=%d xcache=%s xhits=%s status=%s error=%d obs=%s"
     flows (int_of_nat r.r_restarts) (if r.r_cached then 1 else 0)
     (match r.r_xcache with None -> "-" | Some x -> xst_name x)
     (match r.r_xhits with None -> "-" | Some h -> string_of_int (int_of_nat h))
+    (match r.r_status with None -> "-" | Some k -> string_of_int (int_of_nat k))
     (if r.r_error then 1 else 0)
     (String.concat "," (List.map (fun z -> string_of_int (int_of_z z)) r.r_obs))
 
